@@ -15,9 +15,9 @@ using namespace vpsc; using namespace std;
 static mcx::Ctx ctx;
 struct R { int x0, x1, y0, y1; };
 static const int S = 10;
-static string rstr(const vector<R> &in, unsigned fm, bool third, double border) {
+static string rstr(const vector<R> &in, unsigned fm, bool third, double border, double borderY = -1) {
     string s = "rects:"; for (auto &r : in) s += mcx::fmt(" [%d,%d]x[%d,%d]", r.x0, r.x1, r.y0, r.y1);
-    return s + mcx::fmt(" fixedmask=%u thirdPass=%d border=%g", fm, third, border);
+    return s + (borderY < 0 || borderY == border ? mcx::fmt(" fixedmask=%u thirdPass=%d border=%g", fm, third, border) : mcx::fmt(" fixedmask=%u thirdPass=%d xBorder=%g yBorder=%g", fm, third, border, borderY));
 }
 // feasibility of {x_l + gap <= x_r} with the variables in 'pin' held at pos[]: longest-path positive cycle test
 static bool feasible_pinned(int n, const Constraints &cs, const set<unsigned> &pin, const vector<double> &pos) {
@@ -94,18 +94,19 @@ static void run(int n, int G) {
             set<unsigned> fixed; for (int i = 0; i < n; i++) if (fm >> i & 1) fixed.insert(i);
             bool pre = true; for (unsigned i : fixed) for (unsigned j : fixed) if (i < j) { const R &a = in[i], &b = in[j]; if (min(a.x1, b.x1) > max(a.x0, b.x0) && min(a.y1, b.y1) > max(a.y0, b.y0)) pre = false; }
             if (!pre) continue;
-            for (int third = 0; third < 2; third++) for (double border : {0.0, 2.0}) {
-                if (border > 0 && fm != 0) continue;   // border sub-alphabet without fixed sets (keeps the product small)
+            static const double BORDERS[4][2] = {{0, 0}, {2, 2}, {4, 1}, {1, 4}};   // the global x and y borders need not be equal
+            for (int third = 0; third < 2; third++) for (auto &bd : BORDERS) { double border = bd[0], borderY = bd[1];
+                if ((border > 0 || borderY > 0) && fm != 0) continue;   // border sub-alphabet without fixed sets (keeps the product small)
                 ctx.count("transitions"); ctx.count("evaluations");
                 Rectangles rs; for (auto &r : in) rs.push_back(new Rectangle(r.x0 * S, r.x1 * S, r.y0 * S, r.y1 * S));
-                Rectangle::setXBorder(border); Rectangle::setYBorder(border);
+                Rectangle::setXBorder(border); Rectangle::setYBorder(borderY);
                 vector<double> w0, h0, cx0, cy0; double avg = 0;
                 for (auto r : rs) { w0.push_back(r->width()); h0.push_back(r->height()); cx0.push_back(r->getCentreX()); cy0.push_back(r->getCentreY()); avg += (r->width() + r->height()) / 2; } avg /= n;
-                string desc = rstr(in, fm, third, border); bool threw = false; string what;
+                string desc = rstr(in, fm, third, border, borderY); bool threw = false; string what;
                 try { removeoverlaps(rs, fixed, third); } catch (CriticalFailure &f) { threw = true; what = f.what(); ctx.library_abort(f.what(), desc); } catch (...) { threw = true; what = "exception"; }
                 if (threw) ctx.count("threw");
-                if (Rectangle::xBorder != border || Rectangle::yBorder != border) ctx.violation("border_not_restored", {threw ? "after_throw" : "normal_return"}, desc, mcx::fmt("xBorder=%g yBorder=%g %s", Rectangle::xBorder, Rectangle::yBorder, what.substr(0, 120).c_str()));
-                Rectangle::setXBorder(border); Rectangle::setYBorder(border);
+                if (Rectangle::xBorder != border || Rectangle::yBorder != borderY) ctx.violation("border_not_restored", {threw ? "after_throw" : "normal_return"}, desc, mcx::fmt("xBorder=%g yBorder=%g %s", Rectangle::xBorder, Rectangle::yBorder, what.substr(0, 120).c_str()));
+                Rectangle::setXBorder(border); Rectangle::setYBorder(borderY);
                 // evaluate the oracle on whatever state was left behind, thrown or not
                 bool ov = false; for (int i = 0; i < n && !ov; i++) for (int j = i + 1; j < n; j++) {
                     double ox = min(rs[i]->getMaxX(), rs[j]->getMaxX()) - max(rs[i]->getMinX(), rs[j]->getMinX()), oy = min(rs[i]->getMaxY(), rs[j]->getMaxY()) - max(rs[i]->getMinY(), rs[j]->getMinY());
